@@ -1637,6 +1637,14 @@ impl<'a> Model<'a> {
                     days += 1;
                 }
             }
+            let serial = date.num_days_from_ce() - EXCEL_DATE_BASE;
+            if !(MINIMUM_DATE_SERIAL_NUMBER..=MAXIMUM_DATE_SERIAL_NUMBER).contains(&serial) {
+                return CalcResult::Error {
+                    error: Error::NUM,
+                    origin: cell,
+                    message: "Out of range parameters for date".to_string(),
+                };
+            }
         }
         let serial = date.num_days_from_ce() - EXCEL_DATE_BASE;
         CalcResult::Number(serial as f64)
@@ -1717,6 +1725,14 @@ impl<'a> Model<'a> {
                 {
                     days += 1;
                 }
+            }
+            let serial = date.num_days_from_ce() - EXCEL_DATE_BASE;
+            if !(MINIMUM_DATE_SERIAL_NUMBER..=MAXIMUM_DATE_SERIAL_NUMBER).contains(&serial) {
+                return CalcResult::Error {
+                    error: Error::NUM,
+                    origin: cell,
+                    message: "Out of range parameters for date".to_string(),
+                };
             }
         }
         let serial = date.num_days_from_ce() - EXCEL_DATE_BASE;
